@@ -15,6 +15,7 @@
 import Mistletoe.Model.Toc
 import Mistletoe.Proofs.Html
 import Mistletoe.Proofs.Outline
+import Mistletoe.Proofs.TocPlain
 namespace Mistletoe.Props.C19
 open Mistletoe Mistletoe.Html Mistletoe.Toc Mistletoe.Escape
 
@@ -141,5 +142,23 @@ theorem C19_toc_config_current :
     ∧ (∃ cfg, Config.default = some cfg ∧
       ListCfg cfg.block [.blockCode, .heading, .quote, .codeFence, .thematicBreak] [.table, .footnote, .paragraph]) :=
   Mistletoe.Block.C19_config_current_list
+
+/-! ### Plain text: the entry carries the heading's text -/
+
+/-- **Plain text**: for a heading whose children are raw text `t` free of `<`, `>`, `&` (and of the quote characters the
+    options escape), the tag-stripping regex of `parse_rendered_heading` removes exactly the heading's own tags: the entry
+    text is `t` (Proofs/TocPlain.lean). -/
+theorem C19_plain_text_entry (q : Quotes) (cfg : Cfg) (l : Nat) (t : Str) (ht : plainStr q t = true) :
+    entry q cfg l [.rawText t] =
+      if (cfg.omitTitle && l == 1) || decide (l > cfg.depth) || cfg.excluded t then [] else [(l, t)] :=
+  C19_plain_text q cfg l t ht
+
+/-- … and with emphasis, strong, strikethrough, inline code and escape sequences nested at will, the entry text is the
+    concatenation of the leaf strings: the inline tags are stripped too.  (A link inside a heading is outside this: its
+    `<a …>` tag is stripped only when its attributes contain no newline - the regex's `.` does not match one - which the
+    model reproduces; recorded in DESIGN.md.) -/
+theorem C19_plain_text_formatted (q : Quotes) (cfg : Cfg) (l : Nat) (k : List Inline) (hk : plainInlines k = true)
+    (ht : plainStr q (leafTexts k) = true) : entry q cfg l k = entryWith cfg l (leafTexts k) :=
+  C19_plain_text_inlines q cfg l k hk ht
 
 end Mistletoe.Props.C19
